@@ -129,14 +129,13 @@ def _key_of_event(level, ev):
 # ---------------------------------------------------------------- direction A
 
 def _walk(ctx, bins, level, cfg, depth, module, threads, timeout):
+    """TLC export piped into the path walker (runs in a worker thread: no ctx mutation here)."""
     cmd = [os.path.join(bins, "vh-demo"), "graph", level, "--depth", str(depth), "--threads", str(threads)]
     t0 = time.time()
     tres, rc, out = core.tlc_pipe(module, cfg, cmd, cwd=SPECDIR, timeout=timeout)
     if rc != 0:
         if rc in CRASH_SIGNALS:
-            ctx.report("crash:graph:%s" % level, "the replay process died with code %s while executing TLC-generated "
-                       "recordings (%s level)" % (rc, level), {"level": level, "rc": rc})
-            return None
+            return {"crash": rc}
         raise core.ToolError("vh-demo graph %s exited with %s: %s" % (level, rc, out[-500:]))
     try:
         s = json.loads(out.strip().splitlines()[-1])
@@ -145,8 +144,17 @@ def _walk(ctx, bins, level, cfg, depth, module, threads, timeout):
     tail = "\n".join(s.get("tlc_tail", []))
     if "error" in s or not s.get("paths") or "Model checking completed" not in tail:
         raise core.ToolError("graph export (%s) unusable: %s %s" % (level, s.get("error"), tail[-600:]))
+    s["wall_s"] = round(time.time() - t0, 1)
+    return s
+
+
+def _report_walk(ctx, bins, level, s):
+    if "crash" in s:
+        ctx.report("crash:graph:%s" % level, "the replay process died with code %s while executing TLC-generated "
+                   "recordings (%s level)" % (s["crash"], level), {"level": level, "rc": s["crash"]})
+        return
     ctx.add_run("graph walk %s" % level, states=s["states"], edges=s["edges"], paths=s["paths"], steps=s["steps"],
-                mismatches=s["mismatch_count"], edges_covered=s["edges_covered"], wall_s=round(time.time() - t0, 1))
+                mismatches=s["mismatch_count"], drift=s.get("drift_count", 0), edges_covered=s["edges_covered"], wall_s=s["wall_s"])
     ctx.coverage["evaluations"] += s["paths"]
     ctx.coverage["distinct_nontrivial"] += s["nontrivial_paths"]
     ctx.coverage["transitions_replayed_on_impl"] = ctx.coverage.get("transitions_replayed_on_impl", 0) + s["steps"]
@@ -160,9 +168,9 @@ def _walk(ctx, bins, level, cfg, depth, module, threads, timeout):
                                                       json.dumps(m["observed"])[:400], n),
                    {"level": level, "plan": m["plan"], "step": m["step"], "expected": m["expected"], "observed": m["observed"]})
     # differences in the detailed fields only: TLC decides (property level) on one example per class
-    for ex in s.get("drift_examples", []):
+    for j, ex in enumerate(s.get("drift_examples", [])):
         rc2, out2 = core.run_harness([os.path.join(bins, "vh-demo"), "run", level], stdin=json.dumps(ex["plan"]) + "\n", timeout=300)
-        tp = os.path.join(ctx.workdir, "drift_%s_%d.ndjson" % (level, abs(hash(ex["key"])) % 100000))
+        tp = os.path.join(ctx.workdir, "drift_%s_%d.ndjson" % (level, j))
         open(tp, "w").write(out2)
         ok, idx, r2 = _judge_trace(ctx, level, tp, "direction A %s, %d recordings (%s)" % (level, s["drift_keys"].get(ex["key"], 1), ex["key"]))
         if not ok:
@@ -171,8 +179,7 @@ def _walk(ctx, bins, level, cfg, depth, module, threads, timeout):
                        "back to what was written: expected %s, observed %s" % (level, json.dumps(ex["expected"])[:400], json.dumps(ex["observed"])[:400]),
                        {"level": level, "plan": ex["plan"], "step": ex["step"]})
     core.log("[C15] direction A %s: paths=%d steps=%d mismatches=%d drift=%d in %.0fs" % (
-        level, s["paths"], s["steps"], s["mismatch_count"], s.get("drift_count", 0), time.time() - t0))
-    return s
+        level, s["paths"], s["steps"], s["mismatch_count"], s.get("drift_count", 0), s["wall_s"]))
 
 
 # ---------------------------------------------------------------- direction B
@@ -313,6 +320,8 @@ def run(ctx):
     for l in ("lo", "hi"):
         if isinstance(res.get(l), Exception):
             raise res[l]
+    for l in ("lo", "hi"):
+        _report_walk(ctx, bins, l, res[l])
     # 3. direction B
     _direction_b(ctx, bins, tier)
     if tier == "thorough":
